@@ -32,7 +32,7 @@ COMPONENTS = {
 
 def gen(seed, idx, tier):
     rnd = substream(seed, idx, "c05")
-    engine_a = rnd.random() < 0.08
+    engine_a = rnd.random() < 0.15
     if engine_a:
         return gen_engine_a(rnd)
     longer = rnd.random() < 0.06
@@ -125,6 +125,11 @@ def gen_engine_a(rnd):
         cur = {"kind": "const", "I": {"source": a, "drain": -a}}
     field = rnd.choice([{"kind": "zero"}, {"kind": "const", "B": 0.2}, {"kind": "ramp", "B": 0.3, "tmin": 0.0, "tmax": opts["solve_time"]}])
     out = {"path": "out.h5", "absolute": True} if rnd.random() < 0.6 else None
+    faults = []
+    if adaptive and rnd.random() < 0.6:
+        # forced retries: the used time step differs from the proposed one
+        for _ in range(rnd.randint(1, 3)):
+            faults.append({"kind": "refuse", "at": {"stage": rnd.choice(["S", "S", "T"]), "step": rnd.randint(0, steps), "attempts": list(range(rnd.choice([1, 2]))), "iter": 0}})
     return {
         "physics": "real",
         "device": dev,
@@ -132,7 +137,7 @@ def gen_engine_a(rnd):
         "drive": {"field": field, "currents": cur, "epsilon": None},
         "observer": {"output": out},
         "env": {},
-        "faults": [],
+        "faults": faults,
         "meta": {"k": opts["save_every"], "mode": "real"},
     }
 
@@ -140,7 +145,9 @@ def gen_engine_a(rnd):
 def oracle(scn, sim, h):
     V = []
     if h.outcome.startswith("rejected"):
-        raise base.HarnessError(f"C05 scenario rejected at construction: {h.exc}")
+        from ..common import Discard
+
+        raise Discard(f"rejected:{h.exc[0]}:{h.exc[1][:40]}")
     k = scn["options"]["save_every"]
     stub = scn.get("physics") == "stub"
     if h.outcome.startswith("raised"):
@@ -158,6 +165,11 @@ def oracle(scn, sim, h):
         # what was written before is still checked below against the model
     h.expected_rows = recorder.expected_rows(h, h.solver, stub=stub)
     frames = [fr for fr in h.frames if fr["completed"]]
+    if h.outcome == "capped":
+        # the simulator ended the run (step budget): what was recorded so far is still checked
+        last = max([fr["step"] for fr in frames], default=0)
+        Vf, final, t_model = recorder.check_frames(h, frames, k, scn["options"]["solve_time"], stopped_at=last, source="captured")
+        return [v for v in V + Vf if v["rule"] != "frame-labels"], "capped", None
     Vf, final, t_model = recorder.check_frames(h, frames, k, scn["options"]["solve_time"], source="captured")
     V += Vf
     # the file, re-opened with plain h5py, must hold what the writer was handed
